@@ -93,7 +93,23 @@ def check(ctx: Ctx) -> str:
         for fn, nm in ((sf, s), (af, a)):
             src = ast.unparse(fn)
             if nm.startswith(("render", "generate")):
-                ctx.check("ctx = self.new_context(dict(*args, **kwargs))" in src, f"{nm}:ctx", f"environment:Template.{nm}", "context construction", f"{nm} must build its context with self.new_context(dict(*args, **kwargs))", f"src/jinja2/environment.py:{fn.lineno}")
+                from ..normalize import norm as _n
+
+                nsrc = ast.unparse(_n(fn))  # locals naming the data / the context are inlined when used once
+                # the context is self.new_context(dict(*args, **kwargs)), directly or through a local
+                ncs_ = [c for c in astq.calls(fn) if astq.callee(c) == "self.new_context" and len(c.args) == 1]
+                argtxt = ""
+                if len(ncs_) == 1:
+                    a0 = ncs_[0].args[0]
+                    if isinstance(a0, ast.Name):
+                        d_ = [x for x in ast.walk(fn) if isinstance(x, ast.Assign) and len(x.targets) == 1 and isinstance(x.targets[0], ast.Name) and x.targets[0].id == a0.id]
+                        a0 = d_[0].value if len(d_) == 1 else a0
+                    argtxt = ast.unparse(a0)
+                cvar = ""
+                if len(ncs_) == 1 and isinstance(getattr(ncs_[0], "_parent", None), ast.Assign) and isinstance(ncs_[0]._parent.targets[0], ast.Name):  # type: ignore[attr-defined]
+                    cvar = ncs_[0]._parent.targets[0].id  # type: ignore[attr-defined]
+                src = src.replace(f"self.root_render_func({cvar})", "self.root_render_func(ctx)") if cvar else nsrc.replace("self.root_render_func(self.new_context(dict(*args, **kwargs)))", "self.root_render_func(ctx)")
+                ctx.check(argtxt == "dict(*args, **kwargs)", f"{nm}:ctx", f"environment:Template.{nm}", "context construction", f"{nm} must build its context with self.new_context(dict(*args, **kwargs))", f"src/jinja2/environment.py:{fn.lineno}")
                 ctx.check("self.root_render_func(ctx)" in src, f"{nm}:root", f"environment:Template.{nm}", "root generator", f"{nm} must consume self.root_render_func(ctx)", f"src/jinja2/environment.py:{fn.lineno}")
                 hs = [h for h in ast.walk(fn) if isinstance(h, ast.ExceptHandler)]
                 ok = len(hs) == 1 and ast.unparse(hs[0].type) == "Exception" and "self.environment.handle_exception()" in ast.unparse(hs[0])
@@ -165,8 +181,11 @@ def check(ctx: Ctx) -> str:
         side = {}
         for pr in probes:
             at = astq.guard_atoms(av.node, pr)
-            reads_env_attr = "args[0].environment.is_async" in ast.unparse(pr)
-            reads_direct = "args[0].is_async" in ast.unparse(pr) and not reads_env_attr
+            from ..normalize import norm as _n
+
+            ptxt = ast.unparse(_n(pr))  # a local naming args[0].environment is inlined
+            reads_env_attr = "args[0].environment.is_async" in ptxt
+            reads_direct = "args[0].is_async" in ptxt and not reads_env_attr
             if ("pass_arg is _PassArg.environment", True) in at:
                 side["env"] = reads_direct
             elif ("pass_arg is _PassArg.environment", False) in at:
